@@ -186,7 +186,28 @@ func cliDiffC15b(quick bool) []cliDiff {
 	return ds
 }
 
+// cliDiffC13: a multi-tree file whose k-th tree is malformed: every reformat command reports the error (C13: "or an
+// error is reported, none is silently skipped").
+func cliDiffC13(quick bool) []cliDiff {
+	var ds []cliDiff
+	good := []string{"(A:1,B:2,(C:1,D:1)0.5:1);", "((A:1,B:2)0.5:1,C:1,D:1);", "(A:1,C:2,(B:1,D:1)0.5:1);"}
+	for pos := 0; pos < 3; pos++ {
+		for _, bad := range []string{"(A:1,B:2,(C:1,D:1;", "(A,B));", "(A:1,B:x,C:1);"} {
+			lines := append([]string{}, good...)
+			lines[pos] = bad
+			files := map[string]string{"t.nw": strings.Join(lines, "\n") + "\n"}
+			for _, out := range []string{"newick", "nexus", "phyloxml"} {
+				ds = append(ds, cliDiff{"C13", "reformat-malformed-tree", []string{"reformat", out, "-i", "@/t.nw"}, files, fmt.Sprintf("tree %d of the file is malformed: the conversion fails", pos+1), func() (string, bool) { return "", true }})
+			}
+		}
+	}
+	return ds
+}
+
 func init() {
+	addExtra("C13", func(c *Ctx) { defer cliCleanup(); cliDiffRun(c, cliDiffC13(c.Quick())) })
+	cliDiffMore = append(cliDiffMore, cliDiffC13)
+	extraRequire["C13"] = append(extraRequire["C13"], "cli_diff_reformat-malformed-tree")
 	addExtra("C16", func(c *Ctx) { defer cliCleanup(); cliDiffRun(c, cliDiffC16(c.Quick())) })
 	addExtra("C05", func(c *Ctx) {
 		defer cliCleanup()
